@@ -659,6 +659,17 @@ func binExclude(o corrOpts, sum *res.Summary, r *rng.R, bin string) {
 			structured = append(structured, []string{other, "ALL"})
 		}
 	}
+	// a category together with one of its own codes, in both orders (the code adds nothing, whatever its place), alone
+	// and behind another category
+	var redundant [][]string
+	for k, cat := range cats {
+		cs := codes.CodesByCategory[cat]
+		c1, c2 := cs[r.Intn(len(cs))].ID, cs[r.Intn(len(cs))].ID
+		redundant = append(redundant, []string{cat, c1}, []string{c2, cat})
+		if o.tier == "thorough" || k%2 == int(o.seed)%2 {
+			redundant = append(redundant, []string{cats[(k+1)%len(cats)], cat, c1})
+		}
+	}
 	if o.tier != "thorough" {
 		// quick: every singleton of ALL / categories / codes, a third of the structured sets, a sample of the rest
 		var q [][]string
@@ -676,6 +687,7 @@ func binExclude(o corrOpts, sum *res.Summary, r *rng.R, bin string) {
 	} else {
 		sets = append(sets, structured...)
 	}
+	sets = append(sets, redundant...)
 	// every name of the table entirely in lower case, and in a mixed case of its own ("=": taken verbatim)
 	for _, c := range append(append([]string{"ALL"}, cats...), all...) {
 		sets = append(sets, []string{"=" + strings.ToLower(c)})
@@ -1386,6 +1398,22 @@ func (MyNum) String() string { return "n" }
 
 // @implements &Num
 type NotNum struct{ V int }
+
+// method sets that contain methods of the universe scope (error.Error has no package) and of embedded interfaces
+type Coded interface {
+	error
+	Code() int
+}
+
+// @implements Coded
+type NotFound struct {
+	error
+	Key string
+}
+
+// @implements &Coded
+// @implements error
+type Wrapped struct{ Coded }
 
 type Gen[T any] struct{ V T }
 
